@@ -734,6 +734,9 @@ func vHasErrors(rsp *sdcpb.TransactionSetResponse) bool {
 	return false
 }
 
+// short transaction timeout: native replay really sleeps
+const vTxnTimeout = 300 * time.Millisecond
+
 // vStep runs the requests as one TransactionSet.
 func vStep(env *vEnv, sc *vScenario, id string, reqs []*vRequest, dryRun bool) (*sdcpb.TransactionSetResponse, error) {
 	ctx := context.Background()
@@ -745,7 +748,7 @@ func vStep(env *vEnv, sc *vScenario, id string, reqs []*vRequest, dryRun bool) (
 		}
 		tis = append(tis, ti)
 	}
-	return env.ds.TransactionSet(ctx, id, tis, nil, 10*time.Second, dryRun)
+	return env.ds.TransactionSet(ctx, id, tis, nil, vTxnTimeout, dryRun)
 }
 
 // VerifPipelineStep: C01 + C02 on one successful, non-dry-run transaction
